@@ -31,6 +31,9 @@ EXPLANATION = (
     " Added in rounds 8 and 9: Asserts of a private helper are discharged when every caller guards the argument;"
     " formatting the result of eval() counts as raising ValueError; setattr() is followed into the property"
     " setters."
+    " Added in round 10: (O20.2, shared with C20) the name-to-class maps never hold the abstract bases, whose"
+    " hooks raise NotImplementedError. int(float(...)) raises OverflowError; Header / Sheet are also probed"
+    " with Infinity, NaN and 1e999."
 )
 TRUSTED = ["cpsa/tables/raisers.py (external raisers) and cpsa/tables/asserts.py (assert triage), each line with its reason"]
 ASSUMPTIONS = [
